@@ -811,6 +811,14 @@ func (p *Prover) condFacts(g *graph, conds []core.Cond) {
 
 // guardCall: cond states that a summarised guard function returned nil (error result) / true (bool result).
 func (p *Prover) guardCall(dc core.Cond) *ssa.Call {
+	// `if !guard(n) { return }`: the condition is a negation of the call, known false
+	for {
+		u, ok := dc.V.(*ssa.UnOp)
+		if !ok || u.Op != token.NOT {
+			break
+		}
+		dc = core.Cond{V: u.X, Pol: !dc.Pol, If: dc.If}
+	}
 	if call, ok := dc.V.(*ssa.Call); ok && dc.Pol {
 		if _, ok := p.Summaries[call.Call.StaticCallee()]; ok {
 			return call
@@ -830,7 +838,33 @@ func (p *Prover) guardCall(dc core.Cond) *ssa.Call {
 
 // translator maps values of a summarised callee into terms of the caller at the call site.
 func (p *Prover) translator(call *ssa.Call) func(ssa.Value) term {
-	callee := call.Call.StaticCallee()
+	return p.translatorArgs(call.Call.StaticCallee(), call.Call.Args, call)
+}
+
+// translatorVia: `inner` is a guard call inside the summarised callee of `outer` (a guard wrapper); its arguments are
+// expressed through the wrapper's parameters, which stand for outer's arguments at the outer call site.
+func (p *Prover) translatorVia(outer, inner *ssa.Call) func(ssa.Value) term {
+	w := outer.Call.StaticCallee()
+	args := make([]ssa.Value, len(inner.Call.Args))
+	for i, a := range inner.Call.Args {
+		if par, ok := a.(*ssa.Parameter); ok {
+			for j, q := range w.Params {
+				if q == par && j < len(outer.Call.Args) {
+					args[i] = outer.Call.Args[j]
+				}
+			}
+		}
+		if k, ok := a.(*ssa.Const); ok {
+			args[i] = k
+		}
+	}
+	return p.translatorArgs(inner.Call.StaticCallee(), args, outer)
+}
+
+type callArgs struct{ Args []ssa.Value }
+
+func (p *Prover) translatorArgs(callee *ssa.Function, cargs []ssa.Value, at *ssa.Call) func(ssa.Value) term {
+	call := struct{ Call callArgs }{callArgs{cargs}}
 	unknown := 0
 	var tr func(v ssa.Value) term
 	tr = func(v ssa.Value) term {
@@ -840,7 +874,7 @@ func (p *Prover) translator(call *ssa.Call) func(ssa.Value) term {
 		switch x := v.(type) {
 		case *ssa.Parameter:
 			for i, q := range callee.Params {
-				if q == x && i < len(call.Call.Args) {
+				if q == x && i < len(call.Call.Args) && call.Call.Args[i] != nil {
 					return p.termOf(call.Call.Args[i])
 				}
 			}
@@ -869,9 +903,9 @@ func (p *Prover) translator(call *ssa.Call) func(ssa.Value) term {
 				if fa, ok := x.X.(*ssa.FieldAddr); ok {
 					if par, ok := fa.X.(*ssa.Parameter); ok {
 						for i, q := range callee.Params {
-							if q == par && i < len(call.Call.Args) {
+							if q == par && i < len(call.Call.Args) && call.Call.Args[i] != nil {
 								c := cell{base: core.Deref(call.Call.Args[i]), field: fa.Field}
-								if isPureAddr(c.base) && p.entryStateAt(call, c) {
+								if isPureAddr(c.base) && p.entryStateAt(at, c) {
 									return term{cellAtom(c, false), 0}
 								}
 							}
@@ -885,9 +919,9 @@ func (p *Prover) translator(call *ssa.Call) func(ssa.Value) term {
 					if fa, ok := ld.X.(*ssa.FieldAddr); ok {
 						if par, ok := fa.X.(*ssa.Parameter); ok {
 							for i, q := range callee.Params {
-								if q == par && i < len(call.Call.Args) {
+								if q == par && i < len(call.Call.Args) && call.Call.Args[i] != nil {
 									c := cell{base: core.Deref(call.Call.Args[i]), field: fa.Field}
-									if isPureAddr(c.base) && p.entryStateAt(call, c) {
+									if isPureAddr(c.base) && p.entryStateAt(at, c) {
 										return term{cellAtom(c, true), 0}
 									}
 								}
@@ -929,11 +963,19 @@ func (p *Prover) entryStateAt(at ssa.Instruction, c cell) bool {
 }
 
 func (p *Prover) condFactsWith(g *graph, conds []core.Cond, termOf func(ssa.Value) term, depth int) {
+	p.condFactsVia(g, conds, termOf, depth, nil)
+}
+
+func (p *Prover) condFactsVia(g *graph, conds []core.Cond, termOf func(ssa.Value) term, depth int, via *ssa.Call) {
 	for _, dc := range conds {
 		if depth > 0 {
 			if call := p.guardCall(dc); call != nil {
 				p.Notes["summary of "+call.Call.StaticCallee().Name()+" imported at a dominating call"] = true
-				p.condFactsWith(g, p.Summaries[call.Call.StaticCallee()], p.translator(call), depth-1)
+				if via == nil {
+					p.condFactsVia(g, p.Summaries[call.Call.StaticCallee()], p.translator(call), depth-1, call)
+				} else {
+					p.condFactsVia(g, p.Summaries[call.Call.StaticCallee()], p.translatorVia(via, call), depth-1, nil)
+				}
 				continue
 			}
 		}
